@@ -195,6 +195,30 @@ NOT_YET = {
 NOT_APPLICABLE: dict[str, str] = {}
 
 
+# rules added after the two rounds of independent seeded changes (see DESIGN.md, detection table)
+ADDENDA = {
+    "C01": " Added: the century rule (no %y in any parsing format of zorg.shared.dates, the short-date parser feeds %Y with a constant '20'), and the id-word rule is now decided on "
+           "scenarios built from the listener's own methods (enterItem, enterBase_note, enterId per word with distinct provenance labels and uninterpreted recogniser answers), so it does not depend on field names.",
+    "C03": " Added (R6): the obligations C04.R1/R4 about what the query compiler hands the converter (negation bit, operator, case flag, value as written for tag / property / text / file / link atoms) are adopted, "
+           "because the statement starts from the query text.",
+    "C04": " Added: century rule for date atoms (R3) and the text-filter prefix table [!][c]'..' / \"..\" evaluated on abstract parse-tree contexts that answer the generated accessors (R4).",
+    "C05": " Added (R1): the section-less part of a page is stored whenever it exists (the only admissible condition on h0 is its presence) and no converter loop or comprehension filters, skips or slices a child collection; "
+           "(R2) the allocator's alphabet is inside the lexer's ZID_CHAR.",
+    "C06": " Added (R4): the hash map written inside the per-page loop is the committed map, never the examined one, and every recorded hash comes from hashing the file.",
+    "C07": " Added: (R3) _write_to_disk dumps the map it is given, unfiltered; (R4) the date recogniser decides by attempting the parse it guards, and a regex-based is_zid must admit both suffix lengths (regex width from the regex AST).",
+    "C08": " Added (R4): hash-acknowledgement obligations shared with C13 (no whole-map write inside the per-page loop); the is_zid obligation is now 'True only if is_short_date_spec accepted the date part' over all return paths.",
+    "C09": " Added (R4): the section label of a note under H1>H2>H3>H4 is the non-empty titles joined by the separator, evaluated abstractly for both an H1-less page and a titled H1 at every depth.",
+    "C10": " Added: (R5) typestate over the paths of _move_note - whatever reaches add_note has passed through _add_hidden_metadata; (R6) the renderer obligations C12.R1-R3 are adopted (the moved text is Note.to_string()).",
+    "C12": " Added: (R7) the header kept by a .zoq refresh is the leading run of header lines (takewhile / break), never a filter over the old page; (R8) the allocator's alphabet is inside ZID_CHAR.",
+    "C13": " Added (R6): remove-then-add is unconditional for a changed page (not skipped for pages missing from the hash map), the hash map is only read for change detection, every recorded hash is _hash_file(path) and the write never merges the on-disk map back in.",
+    "C14": " Added (R2): get_all_zfiles hands on every file the three recursive globs found (no filter / slice / conditional yield).",
+    "C15": " Added (R5): the reference pattern is '{' (any non-brace)* '}' - decided on the regex AST - so no spelling of {name} stays unexpanded and unreported.",
+    "C16": " Added (R5): a strptime that is not dominated by an 8-digit recogniser is refuted (strptime's %m/%d accept one digit).",
+    "C17": " Added: (R5) every allocatable ZID is in the language of is_zid; (R4) now applies to any 'more than one' refusal in _open_global_link regardless of variable names.",
+    "C18": " Added (R2): the function that reads the clock may be a helper of the same module (result names are related through the returned tuple) and neither it nor its callers may be memoised.",
+}
+
+
 def main() -> None:
     props = [json.loads(l) for l in (VERIF / "properties.jsonl").read_text().splitlines() if l.strip()]
     checks = []
@@ -203,6 +227,7 @@ def main() -> None:
         pid = p["id"]
         if pid in CHECKS:
             tech, text, note, ref = CHECKS[pid]
+            text = text + ADDENDA.get(pid, "")
             checks.append(
                 {
                     "property_id": pid,
